@@ -470,6 +470,22 @@ func c04Source(t c04Type) string {
 			}
 		}
 	}
+	// a run-time shift of an untyped constant next to a typed operand: the constant takes the operand's type
+	if !t.float {
+		for _, op := range c04Ops {
+			if op.shift {
+				continue
+			}
+			R := T
+			if op.cmp {
+				R = "bool"
+			}
+			for _, k := range []int{1, 5} {
+				w("func us_%s_%d(a %s, c int) %s { return a %s (%d << c) }", op.name, k, T, R, op.sym, k)
+				w("func usl_%s_%d(a %s, c int) %s { return (%d << c) %s a }", op.name, k, T, R, k, op.sym)
+			}
+		}
+	}
 	// named (untyped) constants as operands, and typed constants
 	for ki, k := range c04Consts(t) {
 		w("const nc_%d = %s", ki, c04Lit(t, k))
@@ -755,7 +771,33 @@ func (w *c04Worker) unaryAll(a float64) {
 	}
 }
 
+// untypedShift: a OP k<<c and k<<c OP a with a typed a; Go gives k the type of a before shifting.
+func (w *c04Worker) untypedShift(a, c float64) {
+	i32 := c04TypeByName("int32")
+	for _, k := range []float64{1, 5} {
+		sh := c04ShiftMixed(w.t, i32, "shl", k, c)
+		for _, op := range c04Ops {
+			if op.shift {
+				continue
+			}
+			if op.name == "andnot" && k*math.Pow(2, c) >= 1<<53 {
+				continue // recorded finding K06 (the complement of an untyped value beyond 2^53), pinned in c04KnownFindings
+			}
+			rt := w.t
+			wr, wl := sh, sh
+			if !sh.fail {
+				wr, wl = c04Bin(w.t, op.name, a, sh.num), c04Bin(w.t, op.name, sh.num, a)
+			}
+			w.call(fmt.Sprintf("us_%s_%d", op.name, int(k)), rt, wr, []float64{a, c}, w.t.mk(a), i32.mk(c))
+			w.call(fmt.Sprintf("usl_%s_%d", op.name, int(k)), rt, wl, []float64{a, c}, w.t.mk(a), i32.mk(c))
+		}
+	}
+}
+
 func (w *c04Worker) shiftMixed(a float64, ct c04Type, c float64) {
+	if ct.name == "int32" {
+		w.untypedShift(a, c)
+	}
 	for _, op := range []string{"shl", "shr"} {
 		want := c04ShiftMixed(w.t, ct, op, a, c)
 		w.call("sh_"+op+"_"+ct.name, w.t, want, []float64{a, c}, w.t.mk(a), ct.mk(c))
@@ -776,7 +818,7 @@ func (w *c04Worker) decls() {
 }
 
 func runC04(r *core.Run) {
-	r.SetRule("script functions a OP b / a OP= b / a++ / -a / ^a / T(a) / typed declarations and every other place where a constant takes a declared type (parameters incl. variadic and method parameters, single and multiple results, function literals, fields, elements of nested composites, append, tuple assignment), per numeric type, with operands held in locals, globals, struct fields, slice elements and map elements, called through VM.Call and compared (value bit-for-bit incl. -0 and NaN, and dynamic type) with the same operation compiled natively into the harness. 8-bit types: every operand pair. non-trivial = the call returned and Go defines a value (not a panic); distinct by (type, function, operands)")
+	r.SetRule("script functions a OP b / a OP= b / a++ / -a / ^a / T(a) / a OP k<<c with an untyped constant k / typed declarations and every other place where a constant takes a declared type (parameters incl. variadic and method parameters, single and multiple results, function literals, fields, elements of nested composites, append, tuple assignment), per numeric type, with operands held in locals, globals, struct fields, slice elements and map elements, called through VM.Call and compared (value bit-for-bit incl. -0 and NaN, and dynamic type) with the same operation compiled natively into the harness. 8-bit types: every operand pair. non-trivial = the call returned and Go defines a value (not a panic); distinct by (type, function, operands)")
 	r.Assume("the Go compiler that built the harness implements Go's arithmetic; float->integer conversions out of range and NaN are left out (implementation-defined in Go)")
 	thorough := r.Thorough()
 	type task struct {
@@ -991,6 +1033,18 @@ func c04Sentinels(r *core.Run) {
 
 // c04KnownFindings: pinned witnesses of recorded (open) findings.
 func c04KnownFindings(r *core.Run) {
+	{
+		m := core.NewMachine(core.VMOpts{Optimize: true})
+		o := m.Eval(nil, "var a int8 = -127; c := 56; x := a &^ (1 << c); x")
+		r.Eval(1)
+		if !(len(o.Rets) == 1 && o.Rets[0] == "-127") {
+			if r.Findings().Open("K06") {
+				r.KnownFinding("K06")
+			} else {
+				r.Violate(core.Violation{Check: "c04-sentinel", What: "a &^ (1 << c) with c >= 53 does not leave a unchanged", Case: "var a int8 = -127; c := 56; x := a &^ (1 << c); x", Expected: "-127 (int8)", Observed: o})
+			}
+		}
+	}
 	m := core.NewMachine(core.VMOpts{Optimize: true})
 	o := m.Eval(nil, "c := 31; x := 1 << c >> 2; x")
 	r.Eval(1)
